@@ -36,13 +36,16 @@ func main() {
 	}
 	cov["rule"] = "selected inputs pairwise distinct, all in the unspent set of the redeem script, sum(values) == reported total, " +
 		"total == payment or total >= payment + min-change, fee == estimator(returned selection); per withdrawal: unspent' = unspent - selection, " +
-		"spent' = spent + selection, no outpoint selected twice in a history, change output == sum(inputs) - payment, outputs <= inputs"
+		"spent' = spent + selection (full outpoints txid:index), no outpoint selected twice in a history or both unspent and spent, change output == sum(inputs) - payment, outputs <= inputs, no panic"
 	r.Assume("the vote router's quorum logic (C25) delivers the X->BTC message unchanged to BTCHandler.MakeTransaction",
 		"regtest proof of work and a one-transaction merkle block stand in for real Bitcoin blocks on the deposit path",
-		"MultiSign (signature collection, change output re-entering the unspent set) is outside the explored alphabet")
+		"MultiSign is explored only as the two-signature completion of the oldest pending withdrawal, and only in the sibling-outpoint worlds",
+		"sibling outpoints with index 2 (three vault outputs of one BTC transaction) cannot arise from the contract's own transactions: those worlds' unspent record is written directly with the record's exported codec")
 	if r.NViolations() == 0 && only == "" {
 		r.Require("selector:select-returned", "selector:select-none", "selector:total-exact", "selector:total-with-change",
-			"handler:withdrawal-ok", "handler:withdrawal-rejected", "handler:total-exact", "handler:total-with-change")
+			"handler:withdrawal-ok", "handler:withdrawal-rejected", "handler:total-exact", "handler:total-with-change",
+			"handler:multisign-completed", "handler:states-with-sibling-outpoints", "handler:sibling-worlds-with-equal-values-through-real-path",
+			"handler:selected-a-sibling-leaving-a-not-lower-valued-one")
 	}
 	r.Finish(cov)
 }
